@@ -284,7 +284,7 @@ func transform(path, rel string, src []byte, simsyncPath string, r1, r2, r3, r5 
 				}
 			}
 			if r7 {
-				for _, fn := range []string{"Create", "OpenFile", "Rename"} {
+				for _, fn := range []string{"Create", "OpenFile", "Rename", "Remove"} {
 					if sel, ok := isSel(x.Fun, osName, fn); ok {
 						edits = append(edits, edit{off(sel.X.Pos()), len(osName), "simrt"})
 						needSimrt = true
